@@ -10,7 +10,7 @@ use slotted_egraphs::*;
 use std::collections::HashMap;
 
 /// (name, lhs, rhs, explicit side conditions (slot, var)) — must equal `Rules.pool` in the Lean model
-pub const POOL: [(&str, &str, &str, &[(&str, &str)]); 32] = [
+pub const POOL: [(&str, &str, &str, &[(&str, &str)]); 33] = [
     ("add-comm", "(add ?a ?b)", "(add ?b ?a)", &[]),
     ("add-assoc", "(add (add ?a ?b) ?c)", "(add ?a (add ?b ?c))", &[]),
     ("mul-comm", "(mul ?a ?b)", "(mul ?b ?a)", &[]),
@@ -43,6 +43,7 @@ pub const POOL: [(&str, &str, &str, &[(&str, &str)]); 32] = [
     ("sum-infactor-f4", "(mul ?c (sum $f4 ?a))", "(sum $f4 (mul ?c ?a))", &[]),
     ("var-factor", "(add (mul (var $a) (var $b)) (var $a))", "(mul (var $a) (add (var $b) 1))", &[]),
     ("sum-infactor-var", "(mul ?a (sum $i (mul (var $i) ?b)))", "(sum $i (mul (var $i) (mul ?a ?b)))", &[]),
+    ("let-intro", "(mul ?a ?b)", "(let $x (mul (mul (var $x) ?a) ?b) 1)", &[]),
 ];
 
 pub const BAD_POOL: [(&str, &str, &str, &[(&str, &str)]); 2] = [
@@ -74,6 +75,49 @@ pub fn mk_rule_helper<N: Analysis<Main> + 'static>(r: &(&str, &str, &str, &[(&st
         [(x, a)] => Rewrite::new_if(r.0, r.1, r.2, slot_free_in(x, a)),
         [(x, a), (y, b2)] => Rewrite::new_if(r.0, r.1, r.2, and(slot_free_in(x, a), slot_free_in(y, b2))),
         _ => mk_rule(r),
+    }
+}
+
+/// the same rule with every slot it writes (`$x`, `$y`, `$o`, ..) spelled like a fresh slot the library has not handed out
+/// yet (`$f900`, `$f901`, ..) — an alpha-variant, so its meaning is that of the pool entry
+pub fn mk_rule_spelled<N: Analysis<Main> + 'static>(r: &(&str, &str, &str, &[(&str, &str)]), base: usize, helper: bool) -> Rewrite<Main, N> {
+    const NAMES: [&str; 7] = ["x", "y", "z", "o", "i", "a", "b"];
+    let spell = |t: &str| -> String {
+        let mut out = String::new();
+        let cs: Vec<char> = t.chars().collect();
+        let mut k = 0;
+        while k < cs.len() {
+            if cs[k] == '$' {
+                let mut e = k + 1;
+                while e < cs.len() && (cs[e].is_alphanumeric() || cs[e] == '_') {
+                    e += 1;
+                }
+                let name: String = cs[k + 1..e].iter().collect();
+                match NAMES.iter().position(|n| *n == name) {
+                    Some(i) => out.push_str(&format!("$f{}", base + i)),
+                    None => out.push_str(&format!("${name}")),
+                }
+                k = e;
+            } else {
+                out.push(cs[k]);
+                k += 1;
+            }
+        }
+        out
+    };
+    let sname = |x: &str| match NAMES.iter().position(|n| *n == x) {
+        Some(i) => format!("f{}", base + i),
+        None => x.to_string(),
+    };
+    let (l, rr) = (spell(r.1), spell(r.2));
+    let conds: Vec<(String, String)> = r.3.iter().map(|(x, a)| (sname(x), a.to_string())).collect();
+    match (helper, conds.as_slice()) {
+        (_, []) => Rewrite::new(r.0, &l, &rr),
+        (true, [(x, a)]) => Rewrite::new_if(r.0, &l, &rr, slot_free_in(x, a)),
+        _ => {
+            let slots: Vec<(Slot, String)> = conds.iter().map(|(x, a)| (Slot::named(x), a.clone())).collect();
+            Rewrite::new_if(r.0, &l, &rr, move |subst, _| slots.iter().all(|(s, a)| !subst[a].slots().contains(s)))
+        }
     }
 }
 
@@ -210,6 +254,7 @@ pub fn exec_rw(start: Vec<ATerm>, rules: Vec<usize>, iters: usize, subst_extract
         if subst_extraction { "extraction" } else { "synexpr" }
     );
     let has_binder_rule = rules.iter().any(|i| !bad && ((9..=21).contains(i) || *i >= 24));
+    let desc_hash = desc.bytes().fold(0xcbf29ce484222325u64, |h, b| (h ^ b as u64).wrapping_mul(0x100000001b3)) >> 9;
     let r = in_fresh_thread(move || {
         intern_names();
         // pattern slot names in a fixed interning order that is NOT the order of their first use in the rule
@@ -224,11 +269,25 @@ pub fn exec_rw(start: Vec<ATerm>, rules: Vec<usize>, iters: usize, subst_extract
             let a = eg.add_expr(re.clone());
             extra.push((a, re));
         }
+        // a quarter of the runs (decided by the description, so a replay does the same): the rules' own slots are spelled
+        // `$f<N>` with N ahead of the fresh counter, and the rules are parsed only now, after the terms were inserted
+        // (the first rule of the list gets the highest numbers: the first fresh slot drawn afterwards is then up against one
+        // of *its* names)
+        let spelled = !bad && desc_hash % 3 == 0;
+        let base = 40 + (desc_hash / 3 % 900) as usize;
+        let nrules = rules.len();
         let rws: Vec<Rewrite<Main>> = rules
             .iter()
-            .map(|i| {
+            .enumerate()
+            .map(|(k, i)| {
                 let r = if bad { &BAD_POOL[*i] } else { &POOL[*i] };
-                if use_helper { mk_rule_helper(r) } else { mk_rule(r) }
+                if spelled {
+                    mk_rule_spelled(r, base + 10 * (nrules - k), use_helper)
+                } else if use_helper {
+                    mk_rule_helper(r)
+                } else {
+                    mk_rule(r)
+                }
             })
             .collect();
         let mut fired = 0;
@@ -365,6 +424,21 @@ pub fn run(ctx: &mut Ctx) {
             let t = gen_var_factor_term(&mut rng);
             start = if rng.chance(1, 2) { vec![t] } else { vec![t, gen_var_factor_term(&mut rng)] };
             force.push("var-factor");
+        }
+        if !bad && force.is_empty() && rng.chance(1, 10) {
+            // a rule whose binder only the right side writes, around variables that carry slots: no bound slot is met while
+            // matching, so the first fresh slot the matcher draws names a slot of `?a` or `?b` (it must stay clear of the
+            // binder the rule spells, see `mk_rule_spelled`)
+            let var = |c: u32| ATerm { v: 2, fields: vec![CField::Slot(c)], children: vec![] };
+            let bin = |v: usize, a: ATerm, b: ATerm| ATerm { v, fields: vec![CField::App, CField::App], children: vec![a, b] };
+            let (p, q, r2) = (4u32, 8u32, 2u32);
+            let t = match rng.below(3) {
+                0 => bin(5, var(p), var(q)),
+                1 => bin(5, bin(4, var(p), var(r2)), var(q)),
+                _ => bin(5, var(p), bin(5, var(q), var(r2))),
+            };
+            start = if rng.chance(1, 2) { vec![t] } else { vec![t, var(p)] };
+            force.push("let-intro");
         }
         let mut force_ext = false;
         if !bad && force.is_empty() && rng.chance(1, 8) {
